@@ -230,4 +230,173 @@ NumNotStored(c) ==
     Cardinality(UNION {{<<a, p>> : p \in Names(c.arrs[a]) \
                                         StoredCols(c.arrs[a], c.detailed)} :
                        a \in DOMAIN c.arrs})
+-----------------------------------------------------------------------------
+(***************************************************************************)
+(* File names.  How dump/load are used by the Solver:                      *)
+(*   Solver.dump_output: dump(join(dir, "%s_%05d" % (base, count)), ...)   *)
+(*   load(file), get_files(dir, base), get_files(dir),                     *)
+(*   load_and_concatenate(prefix, nprocs, dir, count).                     *)
+(* A name is a sequence of one-character strings.  The format of a file is *)
+(* decided by the name given to dump: it ends in ".npz" or ".hdf5", or it  *)
+(* has no format extension and the default format is used (hdf5 when h5py  *)
+(* is importable, else npz) by *appending* the extension - whatever dots,  *)
+(* underscores or digits the name contains.                                *)
+(***************************************************************************)
+DotNpz == <<".", "n", "p", "z">>
+DotHdf == <<".", "h", "d", "f", "5">>
+HasSuffix(s, x) == /\ Len(s) >= Len(x)
+                   /\ SubSeq(s, Len(s) - Len(x) + 1, Len(s)) = x
+DropLast(s, k) == SubSeq(s, 1, Len(s) - k)
+DefaultFmt(h5) == IF h5 THEN "hdf5" ELSE "npz"
+ExtOf(fmt) == IF fmt = "npz" THEN DotNpz ELSE DotHdf
+
+\* the file dump(name, ...) writes, and its format
+FileOf(name, h5) ==
+    IF HasSuffix(name, DotNpz) THEN [path |-> name, fmt |-> "npz"]
+    ELSE IF HasSuffix(name, DotHdf)
+         THEN [path |-> DropLast(name, 5) \o ExtOf(DefaultFmt(h5)),
+               fmt |-> DefaultFmt(h5)]
+         ELSE [path |-> name \o ExtOf(DefaultFmt(h5)), fmt |-> DefaultFmt(h5)]
+
+Digit == <<"0", "1", "2", "3", "4", "5", "6", "7", "8", "9">>
+Dec(n) ==        \* decimal digits of n >= 0
+    LET F[k \in 0..n] == IF k < 10 THEN <<Digit[k + 1]>>
+                         ELSE Append(F[k \div 10], Digit[(k % 10) + 1])
+    IN F[n]
+Pad5(n) == LET d == Dec(n)
+           IN IF Len(d) >= 5 THEN d ELSE Rep("0", 5 - Len(d)) \o d
+Join(dir, file) == IF dir = <<>> THEN file ELSE dir \o <<"/">> \o file
+
+\* the mapping (directory, base name, iteration count, ext) -> name, file
+SolverName(dir, base, count, ext) ==
+    Join(dir, base \o <<"_">> \o Pad5(count)) \o ext
+SolverFile(dir, base, count, ext, h5) ==
+    FileOf(SolverName(dir, base, count, ext), h5)
+
+\* reading the count back from a file name (what discovery sorts by): the
+\* digits between the last "_" and the format extension
+LastIndex(s, ch) == LET I == {i \in DOMAIN s : s[i] = ch}
+                    IN IF I = {} THEN 0 ELSE CHOOSE i \in I : \A j \in I : j <= i
+DigitVal(ch) == CHOOSE k \in 0..9 : Digit[k + 1] = ch
+IsDigits(s) == s # <<>> /\ \A i \in DOMAIN s : \E k \in 1..10 : Digit[k] = s[i]
+Val(s) == LET F[i \in 0..Len(s)] ==
+                IF i = 0 THEN 0 ELSE 10 * F[i - 1] + DigitVal(s[i])
+          IN F[Len(s)]
+StripExt(f) == IF HasSuffix(f, DotNpz) THEN DropLast(f, 4)
+               ELSE IF HasSuffix(f, DotHdf) THEN DropLast(f, 5) ELSE f
+CountField(f) == LET b == StripExt(f) IN SubSeq(b, LastIndex(b, "_") + 1, Len(b))
+
+(***************************************************************************)
+(* A *run* is a sequence of dumps into one directory, recorded from the    *)
+(* real code:                                                              *)
+(*   h5        : h5py importable                                           *)
+(*   solver    : TRUE when the names follow the Solver's pattern; then     *)
+(*               dir, base, ext, counts give names[i] = SolverName(..)     *)
+(*   names     : the name given to the i-th dump                           *)
+(*   listings  : the set of files below the run's root after the i-th dump *)
+(*   loaded    : for every file present at the end: [path, ok, count,      *)
+(*               magic] - load(path) returned, solver_data['count'], and   *)
+(*               the file type by its first bytes ("npz" | "hdf5" | other) *)
+(*   found     : get_files(dir, base) (paths relative to the root)         *)
+(*   auto      : dir is "<base>_output"; found_auto = get_files(dir)       *)
+(*   concat    : results of load_and_concatenate(prefix, 1, dir, count):   *)
+(*               [count (-1 = None), ok, got]                              *)
+(***************************************************************************)
+RunTargets(r) == [i \in DOMAIN r.names |-> FileOf(r.names[i], r.h5)]
+RunPre(r) ==
+    /\ Len(r.listings) = Len(r.names) /\ Len(r.counts) = Len(r.names)
+    /\ \A i, j \in DOMAIN r.counts : r.counts[i] = r.counts[j] => i = j
+    /\ r.solver => \A i \in DOMAIN r.names :
+                     r.names[i] = SolverName(r.dir, r.base, r.counts[i], r.ext)
+\* the mapping is injective: distinct dumps of a run go to distinct files
+RnDistinct(r) == LET t == RunTargets(r)
+                 IN \A i, j \in DOMAIN t : t[i].path = t[j].path => i = j
+\* each dump writes its file ...
+RnFileWritten(r) == \A i \in DOMAIN r.names :
+                      RunTargets(r)[i].path \in r.listings[i]
+\* ... and nothing else: after i dumps exactly i files exist
+RnNoStrayFiles(r) ==
+    \A i \in DOMAIN r.names :
+      r.listings[i] = {RunTargets(r)[j].path : j \in 1..i}
+\* in the format its name says
+RnFormat(r) == \A i \in DOMAIN r.names :
+                 \A k \in DOMAIN r.loaded :
+                   r.loaded[k].path = RunTargets(r)[i].path =>
+                     r.loaded[k].magic = RunTargets(r)[i].fmt
+\* every dump of the run loads back from its own file with its own data
+RnLoadsBack(r) ==
+    \A i \in DOMAIN r.names :
+      \E k \in DOMAIN r.loaded :
+        /\ r.loaded[k].path = RunTargets(r)[i].path
+        /\ r.loaded[k].ok /\ r.loaded[k].count = r.counts[i]
+\* discovery returns exactly the files written, in iteration order
+InCountOrder(r) ==
+    LET t == RunTargets(r)
+        Rank(i) == Cardinality({j \in DOMAIN r.counts : r.counts[j] <= r.counts[i]})
+    IN [k \in DOMAIN t |-> t[CHOOSE i \in DOMAIN t : Rank(i) = k].path]
+RnDiscovery(r) == r.solver => r.found = InCountOrder(r)
+RnDiscoveryAuto(r) == r.solver /\ r.auto => r.found_auto = InCountOrder(r)
+\* and the count can be read back from the name
+RnCountReadable(r) ==
+    r.solver => \A i \in DOMAIN r.names :
+                  LET f == CountField(RunTargets(r)[i].path)
+                  IN IsDigits(f) /\ Val(f) = r.counts[i]
+\* load_and_concatenate(prefix, 1, dir, count) returns the dump with that
+\* count (count = -1: None, the last one)
+MaxCount(r) == CHOOSE c \in Range(r.counts) : \A d \in Range(r.counts) : d <= c
+ConcatBad(r) == {k \in DOMAIN r.concat :
+                   LET want == IF r.concat[k].count = -1 THEN MaxCount(r)
+                               ELSE r.concat[k].count
+                   IN ~(r.concat[k].ok /\ r.concat[k].got = want)}
+RnConcatenate(r) == ConcatBad(r) = {}
+
+RunClauses(r) ==
+    [Distinct |-> RnDistinct(r), FileWritten |-> RnFileWritten(r),
+     NoStrayFiles |-> RnNoStrayFiles(r), Format |-> RnFormat(r),
+     LoadsBack |-> RnLoadsBack(r), Discovery |-> RnDiscovery(r),
+     DiscoveryAuto |-> RnDiscoveryAuto(r),
+     CountReadable |-> RnCountReadable(r), Concatenate |-> RnConcatenate(r)]
+RunFailed(r) ==
+    IF r.error # "" THEN {"Returns"}
+    ELSE LET cl == RunClauses(r) IN {k \in DOMAIN cl : ~cl[k]}
+
+\* ---- known findings of the file-name handling -----------------------------
+\* dump tests the format extension with endswith(('hdf5', 'npz')) - without
+\* the dot: a name without format extension whose last characters are "npz"
+\* or "hdf5" is cut at the last dot of its last component (the file is
+\* written elsewhere); without such a dot a name ending in "npz" gets the
+\* npz format although hdf5 is the default
+\* (the last component has a dot that os.path.splitext would split at)
+HasInnerDot(p) == LET s == LastIndex(p, "/")
+                      d == LastIndex(p, ".")
+                  IN d > s /\ \E i \in (s + 1)..(d - 1) : p[i] # "."
+SuffixNoDot(name, h5) ==
+    /\ ~HasSuffix(name, DotNpz) /\ ~HasSuffix(name, DotHdf)
+    /\ \/ HasSuffix(name, <<"n", "p", "z">>) /\ (h5 \/ HasInnerDot(name))
+       \/ HasSuffix(name, <<"h", "d", "f", "5">>) /\ HasInnerDot(name)
+Known_name_suffix(r) ==
+    /\ r.error = "" /\ ~r.solver
+    /\ RunFailed(r) # {}
+    /\ RunFailed(r) \subseteq {"FileWritten", "NoStrayFiles", "Format", "LoadsBack"}
+    /\ \A i \in DOMAIN r.names :
+         (RunTargets(r)[i].path \notin r.listings[i] \/
+          \E k \in DOMAIN r.loaded :
+            r.loaded[k].path = RunTargets(r)[i].path /\
+            r.loaded[k].magic # RunTargets(r)[i].fmt)
+         <=> SuffixNoDot(r.names[i], r.h5)
+\* load_and_concatenate builds the file name with str(count) while the
+\* Solver writes "%05d": a count below 10000 is never found
+Known_concat_unpadded(r) ==
+    /\ r.error = "" /\ ConcatBad(r) # {}
+    /\ \A k \in ConcatBad(r) :
+         LET want == IF r.concat[k].count = -1 THEN MaxCount(r)
+                     ELSE r.concat[k].count
+         IN want < 10000 /\ ~r.concat[k].ok
+RunKnown(r) ==
+    (IF Known_name_suffix(r) THEN {"C11-name-suffix-no-dot"} ELSE {}) \cup
+    (IF Known_concat_unpadded(r) THEN {"C11-concat-unpadded-count"} ELSE {})
+RunUnexplained(r) ==
+    RunFailed(r) \
+      ((IF Known_name_suffix(r) THEN RunFailed(r) \ {"Concatenate"} ELSE {}) \cup
+       (IF Known_concat_unpadded(r) THEN {"Concatenate"} ELSE {}))
 =============================================================================
